@@ -40,7 +40,11 @@ PIN = {
 UNPINNED = ["cmdline", "cwd", "environ", "io_counters", "num_fds", "open_files",
             "threads", "nice", "ionice", "cpu_affinity", "memory_full_info",
             "net_connections", "create_time", "exe"]
-METHODS = sorted(PIN) + UNPINNED
+# composite observations (appended last: indices of the others are stable):
+# cpu_percent() reads the platform-level CPU times straight from the shared
+# stat record, then the public cpu_times() must still give the block's answer
+COMPOSITE = {"cpu_percent+cpu_times": "stat"}
+METHODS = sorted(PIN) + UNPINNED + sorted(COMPOSITE)
 SHARED_FILES = ("stat", "status", "smaps")
 
 
@@ -103,6 +107,9 @@ def call_method(p, m):
             elif m == "parent":
                 r = p.parent()
                 v = None if r is None else ("Process", r.pid)
+            elif m == "cpu_percent+cpu_times":
+                p.cpu_percent()
+                v = p.cpu_times()
             else:
                 v = getattr(p, m)()
             return ("ok", v)
@@ -312,7 +319,7 @@ def run_seq(case):
             elif kind == "call":
                 m = METHODS[op[1]]
                 got = call_method(p, m)
-                key = PIN.get(m)
+                key = PIN.get(m) or COMPOSITE.get(m)
                 if blocks and key is not None:
                     if key not in pins:
                         sync_pins()
@@ -357,7 +364,7 @@ def run_seq(case):
                         f"current state {cur()}; ops {case['ops']}")
             elif kind == "as_dict":
                 _, how, idxs, ad = op
-                names = sorted({METHODS[i] for i in idxs} - {"parent"})
+                names = sorted({METHODS[i] for i in idxs} - {"parent"} - set(COMPOSITE))
                 n0 = len(k.log)
                 if how in ("unknown", "nonlist"):
                     arg = names + ["bogus_attr"] if how == "unknown" else "name"
@@ -438,7 +445,7 @@ def run_seq(case):
                     "as_dict-rejected", "served-from-cache"}
     nontrivial = None
     if labels & {"cached-after-mutate", "exception-leaves-block"}:
-        kinds = sorted({op[0] if op[0] != "call" else "call:" + str(PIN.get(METHODS[op[1]])) for op in expanded})
+        kinds = sorted({op[0] if op[0] != "call" else "call:" + str(PIN.get(METHODS[op[1]]) or COMPOSITE.get(METHODS[op[1]])) for op in expanded})
         nontrivial = "seq|" + ",".join(sorted(sig)) + "|" + ",".join(kinds)
     return Result(sorted(labels) or ["plain"], nontrivial)
 
